@@ -65,8 +65,10 @@ func main() {
 			fmt.Fprintf(w, "%s %s\n", hd[1], safeRun(st, p[1]))
 			w.Flush()
 		}
+	case "parq":
+		parqMain(os.Args[2:])
 	default:
-		fmt.Fprintln(os.Stderr, "usage: harness gen|run ...")
+		fmt.Fprintln(os.Stderr, "usage: harness gen|run|parq ...")
 		os.Exit(2)
 	}
 }
